@@ -196,7 +196,7 @@ fn rustls_half(tier: &str, extra: &[&str]) -> Result<Vec<Value>, String> {
 }
 
 pub fn run(ctx: &Ctx) {
-    ctx.set_rule("complete enumeration of the finite matrix {blocking, async} x {native-tls, rustls} x ignore flag {unset, false, true; plus the call sequence true-then-false, which must verify} x extra root {none, issuing CA as PEM, as DER, unrelated CA} x server certificate {valid for localhost, wrong host name, expired, self-signed leaf, signed by another CA} = 240 cells (320 with the call sequence), plus a reduced block with the same target spelled https://, plus 80 cells with IP-literal targets (127.0.0.1 and [::1]: the fixtures name only DNS:localhost, so the supplied-root cells must be rejected for every certificate), plus 24 cells with a second, tiny CA (Ed25519, DER shorter than 256 octets) supplied as PEM and as DER, each one real TLS connection from the library's client to a loopback TLS server (openssl) on ipps://localhost:<port>/ using committed certificate fixtures (thorough: also an IP-literal target, and the whole matrix 3 times in different cell orders; the quick run puts permissive cells before strict ones inside each block so that state leaking between clients would show). Oracle = policy model: must-reject => Err and 0 application bytes seen by the server after the handshake; must-accept => the scripted response. Non-trivial = every cell except {valid, issuing CA as PEM, flag unset}; distinct by cell id.");
+    ctx.set_rule("complete enumeration of the finite matrix {blocking, async} x {native-tls, rustls} x builder history {flag unset, false, true, true-then-false, and ca_cert() placed before / between / after those calls: root-then-true-then-false, true-then-root-then-false, root-then-true; every history that ends with the flag false must verify with the supplied root} x extra root {none, issuing CA as PEM, as DER, unrelated CA} x server certificate {valid for localhost, wrong host name, expired, self-signed leaf, signed by another CA} = 240 cells (320 with the call sequence), plus a reduced block with the same target spelled https://, plus 80 cells with IP-literal targets (127.0.0.1 and [::1]: the fixtures name only DNS:localhost, so the supplied-root cells must be rejected for every certificate), plus 24 cells with a second, tiny CA (Ed25519, DER shorter than 256 octets) supplied as PEM and as DER, each one real TLS connection from the library's client to a loopback TLS server (openssl) on ipps://localhost:<port>/ using committed certificate fixtures (thorough: also an IP-literal target, and the whole matrix 3 times in different cell orders; the quick run puts permissive cells before strict ones inside each block so that state leaking between clients would show). Oracle = policy model: must-reject => Err and 0 application bytes seen by the server after the handshake; must-accept => the scripted response. Non-trivial = every cell except {valid, issuing CA as PEM, flag unset}; distinct by cell id.");
     ctx.assume("the system trust store of the image is whatever it is; the fixtures never chain to it");
     ctx.assume("cells with flag=true and a bad certificate are recorded but not asserted");
     ctx.set_exhaustive(true);
